@@ -54,7 +54,7 @@ def run(ctx):
         rule="states = distinct answer histories; at each the traversal of the search information is compared with the "
              "evaluation log (order, links, count, lengths, stored points = evolvent image, stored values = answers); "
              "non-trivial = executions with >= 3 distinct trials",
-        exhaustive=True, bounds=solverexp.describe(tasks),
+        exhaustive=True, bounds=solverexp.describe(tasks), resolution_horizon_stops=agg["horizon_stops"],
         samples=[dict(cfg=t["cfg"], alphabet=t.get("alphabet"), prefix=t.get("prefix"), depth=t.get("depth"))
                  for t in tasks[:3]],
     )
